@@ -729,9 +729,17 @@ def glue_trio() -> None:
             else:  # pragma: no cover
                 return None
 
-            # Find the system task that matches this call
+            # Find the system task that matches this call. It was spawned
+            # with the message's context, but if it is currently serving a
+            # reentrant call of its own (it called to_thread.run_sync() and
+            # that thread called back) then Trio has temporarily given it
+            # a different one; its coroutine is always a method of the message.
             for task in runner.system_nursery.child_tasks:  # pragma: no branch
-                if task.context is message.context:  # pragma: no branch
+                task_frame = getattr(task.coro, "cr_frame", None)
+                if task.context is message.context or (
+                    task_frame is not None
+                    and task_frame.f_locals.get("self") is message
+                ):  # pragma: no branch
                     frame.hide = True
                     return task.coro
 
